@@ -18,6 +18,9 @@
 //	   B3 (resources.go) the resource grid: role of a resource (input, --against, -o, --config, --against-config,
 //	   --path, --exclude-path) x reference form (dir, .proto, six image spellings, four archive spellings) x state
 //	   on disk (good, missing, missing parent, dangling symlink, parent is a file, symlink loop, wrong type, garbage).
+//	   B4 (faults.go) faults in the environment: the report stream is full after k bytes (every structural position, ENOSPC /
+//	   EPIPE) x command x --error-format; the external diff tool / the temporary directory in every unusable state x
+//	   planted set x input shape x the six output modes of buf format.
 package c20
 
 import (
@@ -56,11 +59,19 @@ func run(r *evid.Run) {
 		"plus formatting variants (10 kinds/places of a difference between a file and its formatted form: missing final newline, blank lines / blanks behind the last line, blank first line, trailing blank in a line, tab indentation, CRLF, extra blank line inside, empty statement; each in either file, " +
 		"alone x every input shape `buf format` accepts x layout (quick: directory in both layouts, file reference), and next to an unformatted other file (thorough: next to every variant of the other file) x the six output modes of buf format); " +
 		"B3: every cell of resource role (input, --against, -o location, --config, --against-config, --path, --exclude-path) x reference form (directory, .proto file, image as binpb/json/txtpb/yaml/binpb.gz/#format=binpb, archive as tar/tar.gz/zip/#format=tar) " +
-		"x state on disk (good, missing, missing parent, dangling symlink, parent is a file, symlink loop, wrong type, garbage content) x command x workspace (clean, planted L1+K1+U1) x --error-format (quick: text, json). An evaluation is one rendering parsed back (A) or one CLI run (B). " +
-		"Distinct non-trivial = distinct A1 pair with at least one non-'a' fragment, distinct A2 case, distinct A3 tuple of >=2 annotations, distinct A4 name or name pair, distinct (directory name, input shape, layout, planted set, file naming) workspace, distinct (operational error, workspace), distinct (role, form, state, command, workspace) resource cell.")
+		"x state on disk (good, missing, missing parent, dangling symlink, parent is a file, symlink loop, wrong type, garbage content) x command x workspace (clean, planted L1+K1+U1) x --error-format (quick: text, json); " +
+		"B4: faults in the environment of a command: (F1) the stream that carries the report (stdout of lint, breaking, format; stderr of build) is full after k bytes, k = every structural position of the fault-free output " +
+		"(first byte, second byte, end of the first line, one byte into the second line, middle, last byte), as ENOSPC (short write) and EPIPE (quick: EPIPE at the first byte and the end of the first line only), x command (build, lint, breaking, format, format -d, -d -w, -d -o) x every --error-format (+ config-ignore-yaml) " +
+		"x planted sets with one and two annotations of each kind, compile / missing-import / package-scan annotations, an unformatted file; (F2) the external diff tool in every state in which it cannot do its work silently " +
+		"(absent from the PATH, not executable, a directory, a dangling link, not a program, exits 1 or 2 without output, killed) and the temporary directory (missing, a regular file), plus a control PATH holding only a link to the real tool, " +
+		"x planted set (clean, unformatted a / b / both, formatting variants, next to a lint plant) x input shape x the six output modes of buf format --exit-code. An evaluation is one rendering parsed back (A) or one CLI run (B). " +
+		"Distinct non-trivial = distinct A1 pair with at least one non-'a' fragment, distinct A2 case, distinct A3 tuple of >=2 annotations, distinct A4 name or name pair, distinct (directory name, input shape, layout, planted set, file naming) workspace, distinct (operational error, workspace), distinct (role, form, state, command, workspace) resource cell, distinct (workspace, command, format, stream, position, fault) refused write, distinct (environment state, workspace, shape, output mode) format run.")
 	r.Assume("B3: a resource that is missing, of the wrong type, unreachable or undecodable is not a problem in the user's sources: status 100 is demanded against only where the plant model has no source problem for the command to report independently of the resource; " +
 		"where buf may legitimately cope (creating a missing output directory, a path filter that selects nothing) status 0 is accepted if nothing was printed and the output is in place. " +
 		"Not enumerated: git and module references (network / external git), permission faults (the harness runs as root), stdin/stdout references ('-')")
+	r.Assume("B4: a report stream that refuses a write means the report was not printed: status 100 (annotations were printed / a difference was reported) and status 0 are both wrong there, whatever part of the report fitted before the fault; " +
+		"only the stream that carries the report in the fault-free run is made to fail. A diff tool that runs, prints nothing and exits 0 is trusted (not a state of the dimension); " +
+		"the diff tool is looked up in the process environment (PATH, TMPDIR), which is process-wide: the environment states are walked serially, only the runs of one state run in parallel")
 	r.Assume("text and msvs are line grammars without any escape mechanism: a newline inside a file name or message cannot be expressed, such sets are not compared in these two formats (counted as line_grammar_skipped)")
 	r.Assume("an unknown position (<=0) may be rendered as absent, 0 or 1; github-actions may omit col/endLine/endColumn when the line (resp. end line) is unknown")
 	r.Assume("an empty message or empty rule ID is degenerate ('should never happen' in the printers): placeholders such as FAILURE are accepted")
@@ -197,6 +208,53 @@ func run(r *evid.Run) {
 			for _, role := range []string{"input", "against", "output", "config", "against-config", "path", "exclude-path"} {
 				if perRC[role+"/not-exist"] == 0 || perRC[role+"/ok"] == 0 {
 					r.Incomplete("vacuous: no run with a non-existent / a good resource in role " + role)
+				}
+			}
+		}
+	}
+
+	if want("B4") && !r.Expired() {
+		fst := cliFaults(ctx, r, scratch)
+		phase("B_faults")
+		r.Set("B4_sink_cells_command_x_format_x_workspace", fst.sinkCells.Load())
+		r.Set("B4_sink_runs", fst.sinkRuns.Load())
+		r.Set("B4_sink_runs_where_the_report_stream_refused_a_write", fst.sinkRefused.Load())
+		r.Set("B4_sink_runs_where_buf_wrote_less_than_the_limit", fst.sinkNotReached.Load())
+		r.Set("B4_sink_faults_compared_across_error_formats", fst.sinkFormatsCompared.Load())
+		r.Set("B4_tool_runs", fst.toolRuns.Load())
+		r.Set("B4_tool_control_runs_that_found_the_difference", fst.toolControl100.Load())
+		r.Set("B4_tool_runs_unformatted_sources_with_unusable_environment", fst.toolMustFail.Load())
+		r.Set("B4_tool_runs_formatted_sources_with_unusable_environment", fst.toolClean.Load())
+		fst.mu.Lock()
+		perStream, perPosition, perState := map[string]int{}, map[string]int{}, map[string]int{}
+		for k, v := range fst.perStream {
+			perStream[k] = v
+		}
+		for k, v := range fst.perPosition {
+			perPosition[k] = v
+		}
+		for k, v := range fst.perState {
+			perState[k] = v
+		}
+		fst.mu.Unlock()
+		r.Set("B4_refused_writes_per_stream_and_command", perStream)
+		r.Set("B4_refused_writes_per_position_and_fault", perPosition)
+		r.Set("B4_tool_runs_per_environment_state", perState)
+		if !r.Expired() {
+			for _, cmd := range []string{"stdout/lint", "stdout/breaking", "stderr/build", "stdout/format", "stdout/format-d"} {
+				if perStream[cmd] == 0 {
+					r.Incomplete("vacuous: no run in which the report stream refused a write: " + cmd)
+				}
+			}
+			if perPosition["end-of-first-line/enospc"] == 0 || perPosition["first-byte/epipe"] == 0 || perPosition["last-byte/enospc"] == 0 || fst.sinkFormatsCompared.Load() == 0 {
+				r.Incomplete("vacuous: no refused write at the end of the first line / at the first byte / at the last byte, or no fault compared across formats")
+			}
+			if fst.toolControl100.Load() == 0 || fst.toolMustFail.Load() == 0 || fst.toolClean.Load() == 0 {
+				r.Incomplete("vacuous: the diff-tool dimension had no control run that found the difference / no run on unformatted sources with an unusable tool / no run on formatted sources")
+			}
+			for _, s := range toolStates {
+				if perState[s.ID] == 0 {
+					r.Incomplete("vacuous: no run in environment state " + s.ID)
 				}
 			}
 		}
